@@ -424,68 +424,3 @@ Proof.
   intros H Hp. unfold wake_serial. rewrite nth_error_map, H. cbn. destruct (w_pc w) eqn:E; try reflexivity. congruence.
 Qed.
 
-Lemma kinv_worker_step cfg t s s' : cfg_ok cfg -> KInv cfg s -> worker_step cfg t s = Some s' -> KInv cfg s'.
-Proof.
-  intros (Hrl & Hch) K H. unfold worker_step in H.
-  destruct (nth_error (ws s) t) as [w|] eqn:Hw; [|discriminate].
-  destruct (w_pc w) eqn:Epc; try discriminate.
-  - (* WIdle *)
-    destruct (q (pl s)) as [sl|] eqn:Eq.
-    + destruct (Nat.leb (c_nbw cfg) (busy (pl s))); inv_some H.
-      * apply kinv_inact with (w := w); auto; rewrite ?Epc; reflexivity.
-      * eapply kinv_pop with (w := w) (k := sl); eauto; rewrite ?Epc; reflexivity.
-    + inv_some H. apply kinv_inact with (w := w); auto; rewrite ?Epc; reflexivity.
-  - (* WGetCCtx *)
-    inv_some H. apply kinv_act0 with (w := w); try apply kinv_set_pl; auto; rewrite ?Epc; try reflexivity.
-    + destruct (sp_on (pl s)); [reflexivity|]. unfold after_getseq; cbn. destruct (_ || _); reflexivity.
-    + destruct (sp_on (pl s)); [reflexivity|]. unfold after_getseq; cbn. destruct (_ || _); reflexivity.
-    + intros j Hj. eapply act_nochunk; eauto. destruct (sp_on (pl s)); cbn; auto. unfold after_getseq; cbn. destruct (_ || _); cbn; auto.
-  - (* WGetSeq *)
-    inv_some H. apply kinv_act0 with (w := w); try apply kinv_set_pl; auto; rewrite ?Epc; try reflexivity.
-    + unfold after_getseq; cbn. destruct (w_cctx w); reflexivity.
-    + unfold after_getseq; cbn. destruct (w_cctx w); reflexivity.
-    + intros j Hj. eapply act_nochunk; eauto. unfold after_getseq; cbn. destruct (w_cctx w); cbn; auto.
-  - (* WGetBuf *)
-    assert (K1 : KInv cfg (set_pl (pl_bp (take (bp_nb (pl s))) (pl s)) s)) by (apply kinv_set_pl; auto).
-    destruct (k_wrk _ _ K t w Hw) as (i & Hi & Hk & Hact0); [rewrite Epc; reflexivity|].
-    destruct (negb _).
-    + inv_some H. apply kinv_act0 with (w := w); auto; rewrite ?Epc; try reflexivity.
-      intros j Hj. eapply act_nochunk; eauto. cbn; auto.
-    + assert (Hj : forall p', match p' with WChunk _ => False | _ => True end ->
-                   Act cfg p' (j_set_dst true (getj s (w_slot w)))).
-      { intros p' Hp'. destruct Hact0 as (A & B & C). repeat split; auto. destruct p'; auto; contradiction. }
-      repeat match type of H with (if ?b then _ else _) = _ => destruct b end; inv_some H;
-      (eapply kinv_act with (w := w) (s := set_pl (pl_bp (take (bp_nb (pl s))) (pl s)) s); eauto; rewrite ?Epc; try reflexivity; apply Hj; cbn; auto).
-  - (* WJobErr *)
-    destruct (k_wrk _ _ K t w Hw) as (i & Hi & Hk & Hact0); [rewrite Epc; reflexivity|].
-    inv_some H. eapply kinv_act with (w := w); eauto; rewrite ?Epc; try reflexivity.
-    destruct Hact0 as (A & B & C). repeat split; auto.
-  - (* WSerial *)
-    destruct (_ <? _).
-    + inv_some H. apply kinv_act0 with (w := w); auto; rewrite ?Epc; try reflexivity.
-      intros j Hj. eapply act_nochunk; eauto. cbn; auto.
-    + inv_some H.
-      match goal with |- KInv cfg (set_w t ?w' ?s2) =>
-        assert (K2 : KInv cfg s2 /\ nth_error (ws s2) t = Some w) end.
-      { destruct (_ && ldm (mt s)).
-        - split; [apply kinv_wake_ldm, kinv_set_sr, kinv_wake_serial; auto|].
-          destruct (wake_ldm_proj (set_sr (mkSer (s_next (sr s) + 1)
-             (if s_next (sr s) =? j_id (getj s (w_slot w)) then s_log (sr s) ++ [(j_id (getj s (w_slot w)), j_abs (getj s (w_slot w)), j_size (getj s (w_slot w)))] else s_log (sr s))
-             (s_skip (sr s)) (win_trim (win_update (s_w (sr s)) (j_src (getj s (w_slot w))) (j_size (getj s (w_slot w)))) (p_win (job_pay cfg s (getj s (w_slot w)))))
-             (win_trim (win_update (s_w (sr s)) (j_src (getj s (w_slot w))) (j_size (getj s (w_slot w)))) (p_win (job_pay cfg s (getj s (w_slot w))))))
-             (set_ws (wake_serial (ws s)) s))) as (_ & _ & _ & _ & Ew & _).
-          rewrite Ew. cbn [ws set_sr set_ws]. apply wake_serial_self; auto. rewrite Epc; discriminate.
-        - split; [apply kinv_set_sr, kinv_wake_serial; auto|]. cbn [ws set_sr set_ws]. apply wake_serial_self; auto. rewrite Epc; discriminate. }
-      destruct K2 as (K2 & Hw2).
-      apply kinv_act0 with (w := w); auto; rewrite ?Epc; try reflexivity.
-      * unfold after_serial. destruct (_ && _); [reflexivity|]. apply next_chunk_props; lia.
-      * unfold after_serial. destruct (_ && _); [reflexivity|]. apply next_chunk_props; lia.
-      * intros j Hj. unfold after_serial. destruct (_ && _); [eapply act_nochunk; eauto; cbn; auto|].
-        admit.
-  - admit.
-  - admit.
-  - admit.
-  - admit.
-  - admit.
-  - admit.
-Admitted.
